@@ -312,7 +312,7 @@ impl Check for C17 {
     }
     fn cases(&self, tier: Tier) -> u64 {
         match tier {
-            Tier::Quick => 12_000,
+            Tier::Quick => 30_000,
             Tier::Thorough => 100_000,
         }
     }
